@@ -170,6 +170,13 @@ def random_script(rng, level, n, beyond=False, g=None):
             report()
     now += 1000
     report()
+    if level == "icpt" and rng.random() < 0.5:          # reads whose wrapped reader fails: passed up, nothing accounted
+        extra = []
+        for st in steps:
+            extra.append(st)
+            if st["a"] == "rtp" and rng.random() < 0.05:
+                extra.append(dict(st, w=(st["w"] + rng.choice([1, 2, 50, 9000, 40000])) % 65536, rfail=True))
+        steps = extra
     if level == "icpt" and rng.random() < 0.5:          # the RTCP writer refuses the reports of some ticks
         steps = [dict(st, wfail=True) if st["a"] == "report" and rng.random() < 0.25 else st for st in steps]
     return wrap(level, rng.choice([0, -1000, -1000, -1, 12345]), rng.choice([0, 0, 1]), steps)
@@ -207,7 +214,7 @@ def inside_history(script):
         if e["a"] in ("bind", "unbind"):
             hi.pop(s, None)
             rep.pop(s, None)
-        elif e["a"] == "rtp":
+        elif e["a"] == "rtp" and not e.get("rfail"):
             if s not in hi:
                 hi[s], rep[s] = e["w"], e["w"] - 1
             else:
